@@ -384,7 +384,120 @@ func runC03(r *Run, verifDir string) {
 					}
 				}
 			})
-			if ea == nil || cv == nil {
+			if ea == nil && cv != nil {
+				// the left padding written inline: encodeAppend(tag, BigInteger, len(bytes)+padLen, func(b) { padLen x padVal; bytes })
+				var app *ssa.Call
+				allInstrs(fn, func(in ssa.Instruction) {
+					if c, ok := in.(*ssa.Call); ok && callID(&c.Call).is(ttlvPath, "ttlvWriter", "encodeAppend") {
+						app = c
+					}
+				})
+				extOf := func(v ssa.Value, idx int) bool {
+					v = unspill(v)
+					ex, ok := v.(*ssa.Extract)
+					return ok && ex.Tuple == ssa.Value(cv) && ex.Index == idx
+				}
+				okInline := false
+				why := "no encodeAppend call"
+				if app != nil {
+					a := app.Call.Args
+					tyv, _ := constIntVal(a[2])
+					mult, _ := constIntVal(cv.Call.Args[1])
+					lenOK := false
+					if sum, ok := a[3].(*ssa.BinOp); ok && sum.Op == token.ADD {
+						if y, ok := lenOperand(sum.X); ok && extOf(y, 0) && extOf(sum.Y, 2) {
+							lenOK = true
+						}
+					}
+					padFirst := false
+					if mc, ok := a[len(a)-1].(*ssa.MakeClosure); ok {
+						cl := mc.Fn.(*ssa.Function)
+						bound := func(fv ssa.Value, idx int) bool {
+							for i, f := range cl.FreeVars {
+								if ssa.Value(f) == fv || func() bool { u, ok := fv.(*ssa.UnOp); return ok && u.X == ssa.Value(f) }() {
+									return extOf(mc.Bindings[i], idx) || func() bool {
+										// captured by reference: the cell holds the extract
+										if al, ok := mc.Bindings[i].(*ssa.Alloc); ok {
+											for _, ref := range *al.Referrers() {
+												if st, ok := ref.(*ssa.Store); ok && extOf(st.Val, idx) {
+													return true
+												}
+											}
+										}
+										return false
+									}()
+								}
+							}
+							return false
+						}
+						var padApp, bytesApp *ssa.Call
+						allInstrs(cl, func(in ssa.Instruction) {
+							c, ok := in.(*ssa.Call)
+							if !ok {
+								return
+							}
+							if b, ok := c.Call.Value.(*ssa.Builtin); !ok || b.Name() != "append" || len(c.Call.Args) < 2 {
+								return
+							}
+							src := c.Call.Args[1]
+							// append(b, padVal): the variadic slice holds the pad byte
+							if sl, ok := src.(*ssa.Slice); ok {
+								if al, ok := sl.X.(*ssa.Alloc); ok {
+									for _, ref := range *al.Referrers() {
+										if ia, ok := ref.(*ssa.IndexAddr); ok {
+											for _, r2 := range *ia.Referrers() {
+												if st, ok := r2.(*ssa.Store); ok && bound(st.Val, 1) {
+													padApp = c
+												}
+											}
+										}
+									}
+								}
+							}
+							if bound(src, 0) {
+								bytesApp = c
+							}
+						})
+						inLoop := func(c *ssa.Call) bool {
+							if c == nil {
+								return false
+							}
+							for _, sc := range c.Block().Succs {
+								if sc == c.Block() || reachableFrom(sc)[c.Block()] {
+									return true
+								}
+							}
+							return false
+						}
+						after := func(a, b *ssa.Call) bool { // b's block is not reachable from a's successors
+							for _, sc := range a.Block().Succs {
+								if sc == b.Block() || reachableFrom(sc)[b.Block()] {
+									return false
+								}
+							}
+							return true
+						}
+						padFirst = padApp != nil && bytesApp != nil && inLoop(padApp) && !inLoop(bytesApp) && after(bytesApp, padApp)
+					}
+					switch {
+					case tyv != byName["BigInteger"].code:
+						why = "wrong type code"
+					case mult != 8:
+						why = "big integers are not extended to a multiple of 8 bytes"
+					case !lenOK:
+						why = "the declared length is not len(bytes)+padLen"
+					case !padFirst:
+						why = "the value closure does not append padLen times the pad byte before the bytes"
+					default:
+						okInline = true
+					}
+				}
+				if okInline {
+					r.OK("C03.T3", key, app.Pos(), "length = len(bytes)+padLen; the value closure writes padLen sign bytes, then the bytes of bigIntToBytes(value, 8)")
+				} else {
+					r.Bad("C03.T3", key, fn.Pos(), "BigInteger does not write bigIntToBytes(value, 8) left-padded with its sign bytes (%s)", why)
+				}
+			} else if ea == nil || cv == nil {
 				r.Bad("C03.T3", key, fn.Pos(), "BigInteger does not write bigIntToBytes(value, 8) through encodeAppendLeftPadded")
 			} else {
 				ext := func(v ssa.Value, idx int) bool {
